@@ -852,6 +852,7 @@ Ltac frameS := eapply (eff_weaken cSet _ pnone); [solve_sub|apply pimp_true|eff_
 Ltac peel :=
   match goal with
   | |- eff _ _ ?s ?s => apply eff_refl
+  | H : eff cAll pTrue ?s ?t |- eff cAll pTrue ?s ?t => exact H
   | |- eff _ _ _ (if _ then _ else _) => break_if
   | |- eff _ _ _ (match _ with _ => _ end) => break_match
   | |- eff _ _ _ (send_gated _ _ _ _) => eapply effA_trans; [|toA send_gated_eff]
@@ -882,7 +883,9 @@ Ltac peel :=
   | |- eff _ _ _ (fst (sasl_result _ _ _)) => eapply effA_trans; [|apply sasl_result_good]
   | |- eff _ _ _ (fst (features_sasl _ _ _)) => eapply effA_trans; [|apply features_sasl_good]
   | |- eff _ _ _ (fst (fst (conn_tls_start _))) => eapply effA_trans; [|toA conn_tls_start_eff]
-  | |- eff _ _ ?s (?f ?v ?t) => apply (effA_trans s t); [|frameS]
+  | |- eff _ _ ?s (?f ?v ?t) =>
+      apply (effA_trans s t);
+      [|let vv := fresh "vv" in let tt := fresh "tt" in set (vv := v); set (tt := t); clearbody vv tt; frameS]
   end.
 Ltac peels := repeat peel.
 
@@ -926,27 +929,75 @@ Ltac outs :=
 Ltac crunch := repeat first [break_if | proj_let; cbv beta iota | break_match].
 Ltac finT := split; cbn [fst snd]; [peels | outs].
 
+
+(* symbolic execution of a handler body for the coarse judgement: intermediate states bound by
+   `let` are abstracted to variables that carry `eff cAll pTrue s x` *)
+Lemma goodT_let_st s v (B : state -> state * emit * bool) :
+  eff cAll pTrue s v -> (forall x, eff cAll pTrue s x -> goodT s (B x)) -> goodT s (let x := v in B x).
+Proof. intros A F. apply F. exact A. Qed.
+Lemma goodR_let_st s v (B : state -> R) :
+  eff cAll pTrue s v -> (forall x, eff cAll pTrue s x -> goodR s (B x)) -> goodR s (let x := v in B x).
+Proof. intros A F. apply F. exact A. Qed.
+Lemma goodT_bind s (r : R) (B : state -> emit -> state * emit * bool) :
+  goodR s r -> (forall x o, eff cAll pTrue s x -> outs_q (f_tls_disabled s) o -> goodT s (B x o)) ->
+  goodT s (let '(x, o) := r in B x o).
+Proof. destruct r as [x o]. intros [A C] F. apply F; assumption. Qed.
+Lemma goodR_bind2 s (r : R) (B : state -> emit -> R) :
+  goodR s r -> (forall x o, eff cAll pTrue s x -> outs_q (f_tls_disabled s) o -> goodR s (B x o)) ->
+  goodR s (let '(x, o) := r in B x o).
+Proof. destruct r as [x o]. intros [A C] F. apply F; assumption. Qed.
+
+Ltac outsq :=
+  first [ assumption
+        | match goal with
+          | |- outs_q _ [] => reflexivity
+          | |- outs_q _ [_] => reflexivity
+          | |- outs_q _ [_; _] => reflexivity
+          | |- outs_q _ (_ ++ _) => apply outs_q_app; outsq
+          end
+        | outs ].
+Ltac known_good :=
+  first [apply auth_good | apply do_bind_good | apply sns_good | apply sasl_result_good
+        | apply features_sasl_good | apply conn_disconnect_good].
+Ltac symR :=
+  lazymatch goal with
+  | |- goodR ?s (ret _) => apply goodR_ret; peels
+  | |- goodR ?s (if ?b then _ else _) => destruct b eqn:?
+  | |- goodR ?s (let '(x, o) := ?r in @?B x o) => apply (goodR_bind2 s r B); [|intros ? ? ? ?]
+  | |- goodR ?s (match ?x with _ => _ end) => destruct x eqn:?
+  | |- goodR ?s (let x := ?v in @?B x) =>
+      let ty := type of v in
+      lazymatch ty with
+      | state => apply (goodR_let_st s v B); [peels|intros ? ?; cbv beta]
+      | _ => change (goodR s (B v)); cbv beta
+      end
+  | |- goodR ?s (_, _) => split; cbn [fst snd]; [peels|outsq]
+  | |- goodR ?s _ => eapply goodR_pre; [|known_good]; peels
+  end.
+Ltac symT :=
+  lazymatch goal with
+  | |- goodT ?s (if ?b then _ else _) => destruct b eqn:?
+  | |- goodT ?s (let '(x, o) := ?r in @?B x o) => apply (goodT_bind s r B); [repeat symR|intros ? ? ? ?]
+  | |- goodT ?s (match ?x with _ => _ end) => destruct x eqn:?
+  | |- goodT ?s (let x := ?v in @?B x) =>
+      let ty := type of v in
+      lazymatch ty with
+      | state => apply (goodT_let_st s v B); [peels|intros ? ?; cbv beta]
+      | _ => change (goodT s (B v)); cbv beta
+      end
+  | |- goodT ?s (_, _, _) => split; cbn [fst snd]; [peels|outsq]
+  end.
+
 Lemma call_handler_good k now e s : goodT s (call_handler k now e s).
 Proof.
   destruct k; unfold call_handler.
-  - finT.
-  - finT.
-  - cbv zeta. crunch; finT.
-  - destruct (e_name e); try finT.
+  4: { destruct (e_name e); try (repeat symT; fail).
     pose proof (conn_tls_start_spec s) as Sp. pose proof (conn_tls_start_eff pnone s) as Ef.
     destruct (conn_tls_start s) as [[s1 o] ok]. cbn [fst snd] in *.
     assert (A : eff cAll pTrue s s1) by (eapply eff_weaken; [|apply pimp_true|exact Ef]; solve_sub).
     assert (Q : outs_q (f_tls_disabled s) o).
     { destruct Sp as [Sp|[Sp|Sp]]; decompose [and] Sp; subst o; try reflexivity;
         unfold outs_q; cbn; rewrite H1; reflexivity. }
-    destruct ok; (split; cbn [fst snd]; [eapply effA_trans; [exact A|peels]|exact Q]).
-  - crunch; finT.
-  - crunch; finT.
-  - crunch; finT.
-  - crunch; finT.
-  - crunch; finT.
-  - cbv zeta. crunch; finT.
-  - cbv zeta. crunch; finT.
-  - cbv zeta. crunch; finT.
-  - crunch; finT.
+    repeat symT. }
+  all: repeat symT.
 Qed.
